@@ -11,7 +11,7 @@ from common import log, load_known, known_match, write_evidence, WORK, VERIF, To
 # which engines bear on which property
 RT_PROPS = {"C01", "C02", "C03", "C04", "C05", "C06", "C07", "C08", "C09", "C10", "C11", "C15", "C16", "C18", "C19"}
 VERDICT_PROPS = {"C10", "C11", "C12", "C13", "C14"}
-SURFACE_PROPS = {"C15", "C19"}
+SURFACE_PROPS = {"C09", "C15", "C19"}
 LEVEL = {p: "model_checking" for p in ["C01", "C02", "C03", "C04", "C05", "C06", "C07", "C08", "C09", "C10", "C11",
                                        "C12", "C13", "C14", "C15", "C18", "C19"]}
 LEVEL.update({"C16": "exploration", "C17": "exploration"})
@@ -244,6 +244,7 @@ def main():
                 path = os.path.join(d, f"{prop}-{hsh}.json")
                 json.dump({"property": prop, "engine": "verdict", "tier": tier, "seed": seed, "why": v["why"], "note": v["note"],
                            "msg": v["msg"], "occurrences": len(unknown), "cases": [x["case"] for x in unknown][:20], "rust": v["rust"],
+                           "profile": v.get("profile", "dev"),
                            "how": "the item above (rendered from the TLC-generated case) was %s by rustc with the derive from /repo, "
                                   "the documented catalogue (spec/Decl.tla, spec/Attr.tla) says the opposite" % v["why"]},
                           open(path, "w"), indent=1)
